@@ -26,7 +26,7 @@ RULE = ("generated package trees (1..3 levels, 1..3 sub-packages, classes re-exp
         "absent / inside / outside the package x --emit-sqlalchemy-submodule; a case = one exmod invocation; distinct by "
         "content digest; non-trivial = all (every case checks the snapshot)")
 REQUIRED_MONITORS = ("exmod.run", "dry-run.snapshot.compared", "dry-run.audit.checked", "real-run.confined",
-                     "generated.python.checked", "exclusion.checked")
+                     "generated.python.checked", "exclusion.checked", "exmod.succeeded.real", "exmod.succeeded.dry")
 ASSUMPTIONS = ["the audit log also catches an open(...,'a').close() that leaves no trace in a snapshot",
                "configurations that raise (e.g. --emit sqlalchemy on this tree: TypeError unexpected keyword) are "
                "'rejected' but remain subject to the dry-run / confinement clauses for whatever they did before failing",
@@ -149,11 +149,17 @@ def run_case(ctx, P, stream, idx):
              "exit": pr.returncode, "stderr_tail": pr.stderr.decode()[-400:], "stdout_tail": pr.stdout.decode()[-400:]}
         P.case({"cfg": cfg, "pkg": w["package"]}, klass="emit=%s/dry=%s" % (emit, dry),
                sample={"config": cfg, "package_modules": list(desc["modules"]), "exit": pr.returncode})
-        if pr.returncode != 0:
-            P.count("rejected.%s:%s" % (emit, err_last.split(":")[0][:30]))
 
         def dev(kind, what, **extra):
             P.deviation("exmod.%s|%s" % (kind, feats), what, dict(w, **extra))
+
+        if pr.returncode != 0:
+            # the property does not promise that exmod succeeds; a failing run is still checked for confinement.
+            # Failures are counted per emit kind and error type (evidence), and a run set in which no real run
+            # produced Python leaves the required monitor `generated.python.checked` at zero => inconclusive
+            P.count("rejected.%s:%s" % (emit, err_last.split(":")[0][:30]))
+        else:
+            P.monitor("exmod.succeeded.%s" % ("dry" if dry else "real"))
 
         changed = [p for p in fsnap.changed_paths(diff)]
         rel_out = os.path.relpath(out, root)
